@@ -138,6 +138,9 @@ func avoidKnown(rec *ev.Rec, c *Case, openRoot, openTail bool) {
 //	for : <div data-m="wM" v-for="x in nN">Kids</div>           (nN is a list with N elements 1..N)
 //	if  : <div data-m="vM" v-if="…">Kids</div>                  (Eq>0: "x == Eq", else constant Cond)
 //	div : <div data-m="dM">Kids</div>
+//	pg  : <template v-if="!deep" include="pgN.vuego" :deep="t"></template> - includes the page file N
+//	      (the page itself: a template that includes itself; from a component: two files including each
+//	      other); the prop bounds the recursion: nothing is included through pg items while deep is set
 //	inc : <template include="components/Comp.vuego">Kids<template #s1>Named</template></template>
 //	      Kids = default slot content (direct children of the include tag), Named = content of the
 //	      named slot s1; both optional
@@ -189,6 +192,7 @@ type Item struct {
 	Cond bool   `json:"cond,omitempty"`
 	Eq   int    `json:"eq,omitempty"`
 	Comp string `json:"comp,omitempty"`
+	Pg   int    `json:"pg,omitempty"` // pg: index of the included page
 	Kids []Item `json:"kids,omitempty"`
 	// inc: content of <template #s1> inside the include tag
 	Named []Item `json:"named,omitempty"`
@@ -250,7 +254,7 @@ type Step struct {
 var booms = []string{"filter", "include", "layout", "writer", "cancel"}
 
 func fileBased(e string) bool {
-	return e == "load" || e == "file" || e == "vue" || e == "frag" || e == "nodes"
+	return e == "load" || e == "file" || e == "vue" || e == "frag" || e == "nodes" || e == "view" || e == "assign" || e == "lnodes"
 }
 
 // forHistory walks the steps, keeping track of which version every page file holds (src) and whether
@@ -324,14 +328,22 @@ type Case struct {
 	Steps []Step   `json:"steps"`
 }
 
-// entry points: file (load, file, vue), fragment (frag), string (string, byte, reader).
 // entry points: file (load, file, vue), fragment (frag), string (string, byte, reader) and caller-parsed
 // nodes (nodes: Loader.LoadFragment of the page file, parsed once per case and handed to every
 // RenderNodes call of the history; xnodes: golang.org/x/net/html ParseFragment of the page body).
-var entries = []string{"load", "file", "vue", "frag", "string", "byte", "reader", "nodes", "xnodes"}
+// view: vuego.View(tpl, file, data).Render; assign: Load(file) + Assign per variable instead of Fill;
+// lnodes: RenderNodes on the result of Loader.Load.
+var entries = []string{"load", "file", "vue", "frag", "string", "byte", "reader", "nodes", "xnodes", "view", "assign", "lnodes"}
 
-func layoutAware(e string) bool { return e == "load" || e == "file" }
-func stringy(e string) bool     { return e == "string" || e == "byte" || e == "reader" }
+func layoutAware(e string) bool { return e == "load" || e == "file" || e == "view" || e == "assign" }
+
+// rootless entries hand the engine a template that is not a file of the site (a string, nodes the
+// caller parsed): its marked elements are elements of that template - distinct from those of the page
+// file it was made from, should the render also include that file.
+func rootless(e string) bool {
+	return stringy(e) || e == "nodes" || e == "xnodes" || e == "lnodes"
+}
+func stringy(e string) bool { return e == "string" || e == "byte" || e == "reader" }
 
 // layoutOrder bounds chains by construction: Next must come later in this list.
 var layoutOrder = []string{"l1", "l2", "l3", "base"}
@@ -547,6 +559,8 @@ func src(items []Item, sb *strings.Builder) {
 			fmt.Fprintf(sb, "<div data-m=\"d%d\">\n", it.M)
 			src(it.Kids, sb)
 			sb.WriteString("</div>\n")
+		case "pg":
+			fmt.Fprintf(sb, "<template v-if=\"!deep\" include=\"%s\" :deep=\"t\"></template>\n", pageName(it.Pg))
 		case "inc":
 			fmt.Fprintf(sb, "%s<template include=\"components/%s.vuego\"%s>", onceHead(it), it.Comp, onceAttrs(it))
 			if len(it.Kids) > 0 {
@@ -658,7 +672,7 @@ func data(s Step) map[string]any {
 		"n0": []int{}, "n1": []int{1}, "n2": []int{1, 2}, "n3": []int{1, 2, 3},
 		"t": true, "f": false, "x": 1,
 		"boomf": s.Boom == "filter", "boomi": s.Boom == "include", "booml": s.Boom == "layout",
-		"boomc": s.Boom == "cancel",
+		"boomc": s.Boom == "cancel", "deep": false,
 	}
 }
 
@@ -669,6 +683,7 @@ func validate(c Case) error {
 	seenM := map[int]bool{}
 	inContent := 0 // > 0 while inside supplied slot content or fallback content
 	inLayout := false
+	pgTargets := map[int]bool{} // page files that are included as components: their file keeps its version
 	// usesK: the component's own file has a condition on the prop k
 	var usesKItems func(items []Item) bool
 	usesKItems = func(items []Item) bool {
@@ -780,6 +795,11 @@ func validate(c Case) error {
 				if err := walk(it.Kids, file, comp, inLoop, false); err != nil {
 					return err
 				}
+			case "pg":
+				if head || inContent > 0 || inLayout || it.Pg < 0 || it.Pg >= len(c.Pages) {
+					return fmt.Errorf("bad page include in %s", file)
+				}
+				pgTargets[it.Pg] = true
 			case "div":
 				if head {
 					return fmt.Errorf("bad div")
@@ -937,6 +957,9 @@ func validate(c Case) error {
 		if (s.Boom == "cancel" || s.Keep) && !stringy(s.Entry) {
 			return fmt.Errorf("bad step %+v", s)
 		}
+		if s.Op != "" && pgTargets[s.P] {
+			return fmt.Errorf("step %+v changes a page file that is included as a component", s)
+		}
 		switch s.Op {
 		case "":
 		case "put":
@@ -971,6 +994,7 @@ type link struct {
 	seen    map[string]bool // file#marker
 	reached map[int]int     // marker -> number of times its position was reached in this render
 	loop    []int
+	deep    bool        // the prop that pg items set: no further page is included below
 	kprop   []bool      // values of the prop k handed down by the include tags being expanded
 	arrived map[int]int // v-for+v-once elements: how often the element itself was arrived at
 	// what the layout chain hands on from the page: contents of its #ph / v-slot:pf templates
@@ -980,6 +1004,7 @@ type link struct {
 	inhReached  map[int]bool    // marked elements of handed-on content reached in this link
 	passedFalse map[string]bool // own-v-if members that were passed with a false condition before their first reach
 	lateIf      map[int]bool    // ... and were reached afterwards
+	recursions  int             // page files included through pg items
 	twins       map[string]int  // component X -> bit 1: X included, bit 2: its twin TX included (this link)
 	sb          strings.Builder
 }
@@ -1093,6 +1118,19 @@ func (l *link) walk(items []Item) {
 			fmt.Fprintf(&l.sb, "d%d(", it.M)
 			l.walk(it.Kids)
 			l.sb.WriteString(")")
+		case "pg":
+			if l.deep {
+				continue
+			}
+			l.recursions++
+			p := l.c.Pages[it.Pg]
+			old, oldFile := l.scope, l.file
+			l.scope, l.file, l.deep = &scope{parent: old, file: oldFile}, "", true // elements of the page FILE
+			fmt.Fprintf(&l.sb, "pg%d()", it.Pg)
+			l.walk(p.Ph)
+			l.walk(p.Pf)
+			l.walk(p.Items)
+			l.scope, l.file, l.deep = old, oldFile, false
 		case "inc":
 			if !l.onceOn(it) {
 				continue
@@ -1171,6 +1209,13 @@ func expect(c *Case, s Step, src int) expectation {
 	var e expectation
 	p := c.Pages[src]
 	l := newLink(c)
+	if rootless(s.Entry) {
+		l.file = "\x00root" // the root template is not the page file
+	} else if src != s.P {
+		// the file of page s.P holds another page's text: as a FILE it is distinct from that page's own
+		// file, which a pg item of the text may include
+		l.file = "\x00" + pageName(s.P)
+	}
 	fmt.Fprintf(&l.sb, "pg%d()", src)
 	l.walk(p.Ph) // a slot template that is not inside an include tag renders its children in place
 	l.walk(p.Pf)
@@ -1305,6 +1350,27 @@ func renderStep(e *engine, c *Case, s Step, src int, brokenOn bool) (string, err
 		err = tpl.Load(name).Fill(data(s)).Render(ctx, w)
 	case "file":
 		err = tpl.New().Fill(data(s)).RenderFile(ctx, w, name)
+	case "view":
+		err = vuego.View(tpl, name, data(s)).Render(ctx, w)
+	case "assign":
+		t := tpl.Load(name)
+		d := data(s)
+		keys := make([]string, 0, len(d))
+		for k := range d {
+			keys = append(keys, k)
+		}
+		sort.Strings(keys)
+		for _, k := range keys {
+			t = t.Assign(k, d[k])
+		}
+		err = t.Render(ctx, w)
+	case "lnodes":
+		var nodes []*html.Node
+		nodes, err = vuego.NewLoader(fsys).Load(name)
+		if err != nil {
+			return "", fmt.Errorf("parse: %w", err)
+		}
+		err = vue.RenderNodes(w, nodes, data(s))
 	case "vue":
 		err = vue.Render(w, name, data(s))
 	case "frag":
@@ -1583,6 +1649,8 @@ func classify(c Case) (bool, []string) {
 					set["if x==k in loop"] = true
 				}
 				walk(it.Kids, kind, inLoop, inOnce, true)
+			case "pg":
+				set["page-file-included ("+kind+")"] = true
 			case "div":
 				walk(it.Kids, kind, inLoop, inOnce, underIf)
 			case "inc":
@@ -1763,6 +1831,12 @@ func classify(c Case) (bool, []string) {
 			if len(l.lateIf) > 0 {
 				set["own-v-if false before first reach"] = true
 			}
+			if l.recursions > 0 {
+				set["recursion: root page file included again in its own render"] = true
+				if rootless(s.Entry) {
+					set["recursion under a rootless entry (string / caller nodes)"] = true
+				}
+			}
 			for m, n := range l.arrived {
 				if n >= 2 {
 					_ = m
@@ -1880,7 +1954,7 @@ func (u *uni) slotCh(name string, tags []string, ch string, cond bool, eq int) [
 	return its
 }
 
-var pageSlots = []string{"s0", "s1", "s2", "s3", "s4", "s5", "q0", "q1", "a0", "a1", "a2", "b0", "c0", "t0", "t1", "f0", "f1", "e0", "e1", "i0", "i1", "k0", "k1", "k2", "g0", "g1", "s6"}
+var pageSlots = []string{"s0", "s1", "s2", "s3", "s4", "s5", "q0", "q1", "a0", "a1", "a2", "b0", "c0", "t0", "t1", "f0", "f1", "e0", "e1", "i0", "i1", "k0", "k1", "k2", "g0", "g1", "s6", "r0", "r1"}
 
 // slots in the page's #ph / v-slot:pf templates (sites with layouts)
 var handedSlots = []string{"ph0", "ph1", "pf0"}
@@ -1988,6 +2062,9 @@ func universe(fill []string, p uparams) Case {
 	D := []Item{{K: "slot", Kids: u.slot("f0", all)}, {K: "for", M: u.id(), N: 2, Kids: []Item{{K: "slot", Nm: true, Kids: u.slot("f1", all)}}}}
 	// a <slot v-once v-if> in a loop: filled (content or this fallback) at its first instantiation only
 	D = append(D, Item{K: "for", M: u.id(), N: 2, Kids: []Item{{K: "slot", O: true, M: u.id(), Ch: "if", Cond: true, Kids: []Item{{K: "div", M: u.id()}}}}})
+	var R []Item
+	R = append(R, u.slot("r0", all)...)
+	R = append(R, Item{K: "for", M: u.id(), N: 2, Kids: u.slot("r1", all)}, inc("C"), Item{K: "pg", Pg: 3}, inc("G"))
 	// E: an unconditional asset, an optional second one, and an optional one under the prop
 	E := []Item{{K: "once", M: u.id(), Tag: "style", Sp: u.sp % len(spellings), At: u.at}}
 	E = append(E, u.slot("g0", leafTags)...)
@@ -1998,8 +2075,10 @@ func universe(fill []string, p uparams) Case {
 	E = append(E, g1...)
 	F := []Item{{K: "once", M: u.id(), Tag: "script", Ch: "tpl", Sp: (u.sp + 1) % len(spellings)}}
 	c := Case{
-		Pages:     []Page{{Items: P}, {Items: Q}, {}}, // page 2: the PLAIN version of page 0 (no marked element)
-		Comps:     map[string][]Item{"A": A, "B": B, "C": C, "D": D, "E": E, "F": F},
+		// page 2: the PLAIN version of page 0 (no marked element); page 3: a page that includes itself and,
+		// through component G, is included back
+		Pages:     []Page{{Items: P}, {Items: Q}, {}, {Items: R}},
+		Comps:     map[string][]Item{"A": A, "B": B, "C": C, "D": D, "E": E, "F": F, "G": {{K: "pg", Pg: 3}}},
 		Twins:     []string{"A"},
 		TwinStyle: p.twin,
 		Lead:      p.lead,
@@ -2063,7 +2142,7 @@ func historyFor(k int, short bool) []Step {
 		// page 0 again, the other page, page 0 once more
 		return []Step{
 			{P: 0, Entry: e, Keep: keep}, {P: 0, Entry: e, Keep: keep, Boom: boomFor(k, e)}, {P: 0, Entry: e, Keep: keep},
-			{P: 1, Entry: o}, last,
+			{P: 1, Entry: o}, last, {P: 3, Entry: e, Keep: keep},
 		}
 	}
 	// page 0 twice, a failing render of it, page 0 again, the other page, a second failing render
@@ -2077,6 +2156,7 @@ func historyFor(k int, short bool) []Step {
 		{P: 0, Entry: e, Keep: keep, Boom: boomFor(k, e)}, {P: 0, Entry: e, Keep: keep},
 		{P: 1, Entry: o},
 		{P: 0, Entry: e2, Keep: keep, Boom: boomFor(k+3, e2)}, {P: 0, Entry: e2, Keep: keep}, last,
+		{P: 3, Entry: e, Keep: keep}, {P: 3, Entry: o},
 	}
 }
 
@@ -2127,6 +2207,7 @@ type gen struct {
 	at        int             // the identity-like attribute of this site (0: none)
 	usesK     map[string]bool // components with a condition on the prop k
 	twinStyle int
+	nPages    int
 	// inContent > 0 while drawing supplied slot content or fallback content (no <slot>, no x==k there)
 	inContent int
 	namedOK   bool // named slot content only in sites without layouts
@@ -2176,6 +2257,30 @@ func (g *gen) bare(name string) []Item {
 	return out
 }
 
+// pgTargets lists the pages that some pg item includes.
+func pgTargets(c *Case) map[int]bool {
+	out := map[int]bool{}
+	var walk func(items []Item)
+	walk = func(items []Item) {
+		for _, it := range items {
+			if it.K == "pg" {
+				out[it.Pg] = true
+			}
+			walk(it.Kids)
+			walk(it.Named)
+		}
+	}
+	for _, p := range c.Pages {
+		walk(p.Items)
+		walk(p.Ph)
+		walk(p.Pf)
+	}
+	for _, items := range c.Comps {
+		walk(items)
+	}
+	return out
+}
+
 // onceOn puts v-once on an include tag / <slot> and possibly makes it a chain member.
 func (g *gen) onceOn(it *Item, l string, inLoop bool) {
 	it.O, it.M = true, g.id()
@@ -2214,6 +2319,9 @@ func (g *gen) items(label string, comp, depth int, inLoop bool, max int) []Item 
 		}
 		if g.inLayout && g.inContent == 0 {
 			kinds = append(kinds, "pslot", "pslot")
+		}
+		if !g.inLayout && g.inContent == 0 && g.nPages > 0 {
+			kinds = append(kinds, "pg")
 		}
 		if depth >= 3 {
 			kinds = []string{"once"}
@@ -2270,6 +2378,8 @@ func (g *gen) items(label string, comp, depth int, inLoop bool, max int) []Item 
 			it := Item{K: "div", M: g.id()}
 			it.Kids = g.items(l, comp, depth+1, inLoop, 3)
 			out = append(out, it)
+		case "pg":
+			out = append(out, Item{K: "pg", Pg: rapid.IntRange(0, g.nPages-1).Draw(g.t, l+"pg")})
 		case "if":
 			it := Item{K: "if", M: g.id()}
 			if inLoop && g.inContent == 0 && rapid.Bool().Draw(g.t, l+"eq?") {
@@ -2343,6 +2453,7 @@ func genCase(rec *ev.Rec, openRoot, openTail bool) func(t *rapid.T) Case {
 		hasBase := rapid.IntRange(0, 3).Draw(t, "base") == 0
 		g.namedOK = nLay == 0 && !hasBase
 		nPages := rapid.IntRange(1, 2).Draw(t, "pages")
+		g.nPages = nPages
 		// slot templates of the pages that a layout chain hands on (drawn first: they get their share
 		// of the marked elements)
 		phs := make([][2][]Item, nPages)
@@ -2496,7 +2607,7 @@ func genCase(rec *ev.Rec, openRoot, openTail bool) func(t *rapid.T) Case {
 			if rapid.IntRange(0, 3).Draw(t, "boom?") == 0 {
 				s.Boom = boomFor(rapid.IntRange(0, len(booms)-1).Draw(t, "boom"), s.Entry)
 			}
-			if i >= nPages && rapid.IntRange(0, 6).Draw(t, "op?") == 0 {
+			if i >= nPages && !pgTargets(&c)[s.P] && rapid.IntRange(0, 6).Draw(t, "op?") == 0 {
 				// a site change instead of a render: another version of the page file, or a broken one
 				s = Step{P: s.P, Op: rapid.SampledFrom([]string{"put", "put", "break", "remove"}).Draw(t, "op")}
 				if s.Op == "put" {
@@ -2598,7 +2709,7 @@ enum:
 		}
 	}
 	if ok {
-		rec.Exhaustive(fmt.Sprintf("universe site: every choice of 1..%d of its slots x %d parameter sets x 9/2(thorough 3)/2 entry histories for 1/2/3 filled slots (%d cases)", maxFill, len(params), n))
+		rec.Exhaustive(fmt.Sprintf("universe site: every choice of 1..%d of its slots x %d parameter sets x all/2(thorough 3)/2 of the entry histories for 1/2/3 filled slots, plus file-version histories (%d cases)", maxFill, len(params), n))
 	}
 
 	run.Rapid(t, rec, "random", genCase(rec, openRoot, openTail), classify, check)
